@@ -77,6 +77,9 @@ CANDIDATES = {
     "bytes-lowercase": [variant("v1", [[mp("abcd", "ident3", None, "st.serial")]]),
                         variant("v2", [[mp("aBcE", "ident3", None, "st.serial")]]),
                         variant("v3", [[mp("ABCF", "ident3", None, "st.serial")]])],
+    # the identification value is zero / the lowest code
+    "zero-value": [variant("v1", [[mp("0", "ident1", "v")]]), variant("v2", [[mp("1", "ident1", "v")]]),
+                   variant("v3", [[mp("0", "ident2", "w")]])],
     "noncanonical-expected": [variant("v1", [[mp("05", "ident1", "v")]]),
                               variant("v2", [[mp("5", "ident1", "v")]])],
     "float-value": [variant("v1", [[mp("1.5", "ident5", "f")]]), variant("v2", [[mp("2.5", "ident5", "f")]]),
